@@ -154,7 +154,9 @@ func RunCheck(ctx *Ctx, prepare func(*Ctx) (*Prepared, error), level string) int
 		jobs = fj
 	}
 	fmt.Printf("property=%s tier=%s jobs=%d\n", ctx.ID, ctx.Tier, len(jobs))
+	tPrep := time.Since(t0)
 	results := RunJobs(jobs, ctx.Par, ctx.Work)
+	tEngine := time.Since(t0) - tPrep
 	findings, err := loadFindings(filepath.Join(ctx.Verif, "known_findings.json"))
 	if err != nil {
 		fmt.Printf("BROKEN property=%s %v\n", ctx.ID, err)
@@ -251,8 +253,12 @@ func RunCheck(ctx *Ctx, prepare func(*Ctx) (*Prepared, error), level string) int
 				s.Harness = h
 				vios = append(vios, &vioRec{job: j, pkg: pk, harness: h, v: v, sig: s})
 			}
-			for _, w := range fr.Witnesses {
-				witnesses[pk] = append(witnesses[pk], ReplayCase{Func: h, Script: w, Runs: 1})
+			// translation validation: path witnesses are replayed natively (quick
+			// tier: for every third package, thorough: all)
+			if ctx.Tier == "thorough" || len(jobs) < 8 || pkgSample(pk) {
+				for _, w := range fr.Witnesses {
+					witnesses[pk] = append(witnesses[pk], ReplayCase{Func: h, Script: w, Runs: 1})
+				}
 			}
 		}
 	}
@@ -301,9 +307,16 @@ func RunCheck(ctx *Ctx, prepare func(*Ctx) (*Prepared, error), level string) int
 	os.RemoveAll(replayDir)
 	tracesValidated := 0
 	var disagreements []string
+	// one representative per failing site is replayed natively (two for good
+	// measure); the other instances of the same signature inherit its outcome
 	byJob := map[string][]*vioRec{}
+	repOf := map[string][]*vioRec{}
 	for _, v := range vios {
-		byJob[v.pkg] = append(byJob[v.pkg], v)
+		k := v.sig.String()
+		if len(repOf[k]) < 2 {
+			repOf[k] = append(repOf[k], v)
+			byJob[v.pkg] = append(byJob[v.pkg], v)
+		}
 	}
 	var jobNames []string
 	for n := range byJob {
@@ -343,10 +356,10 @@ func RunCheck(ctx *Ctx, prepare func(*Ctx) (*Prepared, error), level string) int
 				if v.v.Kind == "assert" {
 					runs = 24
 				}
-				cases = append(cases, ReplayCase{Func: v.harness, Script: v.v.Script, Runs: runs, Kind: v.v.Kind, ID: v.v.ID})
+				cases = append(cases, ReplayCase{Func: v.harness, Script: v.v.Script, Runs: runs, Kind: v.v.Kind, ID: v.v.ID, Group: vi + 1})
 				owner = append(owner, vi)
 				for _, alt := range v.v.Alt {
-					cases = append(cases, ReplayCase{Func: v.harness, Script: alt, Runs: runs, Kind: v.v.Kind, ID: v.v.ID})
+					cases = append(cases, ReplayCase{Func: v.harness, Script: alt, Runs: runs, Kind: v.v.Kind, ID: v.v.ID, Group: vi + 1})
 					owner = append(owner, vi)
 				}
 			}
@@ -412,6 +425,8 @@ func RunCheck(ctx *Ctx, prepare func(*Ctx) (*Prepared, error), level string) int
 		}
 	}
 
+	tReplay := time.Since(t0) - tPrep - tEngine
+	fmt.Printf("phases: prepare=%.1fs engine=%.1fs native-replay=%.1fs\n", tPrep.Seconds(), tEngine.Seconds(), tReplay.Seconds())
 	// ---- classify violations ----
 	exit := 0
 	knownMatched := map[string]int{}
@@ -419,6 +434,15 @@ func RunCheck(ctx *Ctx, prepare func(*Ctx) (*Prepared, error), level string) int
 	var violationLines []string
 	seenSig := map[string]bool{}
 	for _, v := range vios {
+		if v.outcome == nil {
+			// inherit from a representative of the same site
+			for _, r := range repOf[v.sig.String()] {
+				if r.outcome != nil && (v.outcome == nil || r.outcome.Reproduced) {
+					o := *r.outcome
+					v.outcome = &o
+				}
+			}
+		}
 		if v.outcome == nil {
 			v.outcome = &CaseOutcome{Summary: "not replayed"}
 		}
@@ -682,4 +706,15 @@ func Replay(dir string, ctx *Ctx, prepare func(*Ctx) (*Prepared, error)) int {
 		return 1
 	}
 	return 0
+}
+
+func pkgSample(pk string) bool {
+	h := 0
+	for _, c := range pk {
+		h = h*31 + int(c)
+	}
+	if h < 0 {
+		h = -h
+	}
+	return h%3 == 0
 }
